@@ -65,6 +65,7 @@ def strategy_impl(draw, tier):
         "dims": order,
         "values": values,
         "to": to,
+        "to_extra": {n: draw(st.sampled_from(by_name[n]["positions"])) for n in names if n not in op_axes and draw(st.booleans())},
         "to_spelling": "omit" if to is None else draw(st.sampled_from(["scalar", "dict"] if len(set(to.values())) == 1 else ["dict"])),
         "call_boundary": draw(gen.boundary_spelling(names)),
         "call_fill": draw(gen.fill_spelling(names)),
@@ -97,7 +98,7 @@ def to_kw(case, targets, explicit):
         return {}
     if case["to_spelling"] == "scalar":
         return {"to": next(iter(targets.values()))}
-    return {"to": dict(targets)}
+    return {"to": dict(case.get("to_extra") or {}, **targets)}
 
 
 def bcast(vec, k, ndim):
